@@ -111,7 +111,18 @@ inline int payload(const Tracked &t) { return t.get(); }
 
 struct track_alloc {
 	int id = 0;      // identifies the pool this handle refers to: a block must be given back to the pool it came from
+	// A handle that was moved from no longer refers to its pool (think of a reference-counted arena handle): using it is an error.
+	// Copies are independent handles to the same pool.
+	bool moved_from = false;
+	track_alloc() = default;
+	track_alloc(int i) : id(i) {}
+	track_alloc(const track_alloc &o) : id(o.id), moved_from(o.moved_from) {}
+	track_alloc(track_alloc &&o) noexcept : id(o.id), moved_from(o.moved_from) { o.moved_from = true; }
+	track_alloc &operator=(const track_alloc &o) { id = o.id; moved_from = o.moved_from; return *this; }
+	track_alloc &operator=(track_alloc &&o) noexcept { if(this != &o) { id = o.id; moved_from = o.moved_from; o.moved_from = true; } return *this; }
+	void check_handle(const char *what) { if(moved_from) reg().err(what, this); }
 	void *allocate(size_t n) {
+		check_handle("allocate() through an allocator handle at %p that was moved from");
 		auto &r = reg();
 		r.allocs++;
 		if(r.fail_alloc_at && r.allocs == r.fail_alloc_at) return nullptr;
@@ -121,6 +132,7 @@ struct track_alloc {
 		return p;
 	}
 	void release(void *p, long n, bool sized) {
+		check_handle("a block is given back through an allocator handle at %p that was moved from");
 		auto &r = reg();
 		if(!p) { r.err("deallocation of a null pointer %p", p); return; }
 		auto it = r.live_blk.find(p);
